@@ -10381,6 +10381,9 @@ func (l *Lowerer) resolveParameterizedType(t *parser.NamedType) (ir.TypeHandle, 
 	// registering the scalar here, and running compactTypes() after lowering.
 	if len(t.Name) == 4 && t.Name[:3] == "vec" {
 		size := t.Name[3] - '0'
+		if len(t.TypeParams) != 1 {
+			return 0, fmt.Errorf("%s requires exactly one type parameter", t.Name)
+		}
 		scalarType, err := l.resolveType(t.TypeParams[0])
 		if err != nil {
 			return 0, err
@@ -10390,7 +10393,10 @@ func (l *Lowerer) resolveParameterizedType(t *parser.NamedType) (ir.TypeHandle, 
 		if !ok {
 			return 0, fmt.Errorf("scalar type handle %d not found in registry", scalarType)
 		}
-		scalar := typ.Inner.(ir.ScalarType)
+		scalar, ok := typ.Inner.(ir.ScalarType)
+		if !ok {
+			return 0, fmt.Errorf("%s component type must be a scalar", t.Name)
+		}
 		return l.registerType("", ir.VectorType{
 			Size:   ir.VectorSize(size),
 			Scalar: scalar,
@@ -10400,6 +10406,9 @@ func (l *Lowerer) resolveParameterizedType(t *parser.NamedType) (ir.TypeHandle, 
 	// Matrix types: mat2x2<f32>, mat4x4<f32>
 	if len(t.Name) >= 3 && t.Name[:3] == "mat" {
 		// Simple parsing: mat4x4 -> 4 columns, 4 rows
+		if len(t.Name) != 6 || t.Name[4] != 'x' || len(t.TypeParams) != 1 {
+			return 0, fmt.Errorf("unsupported parameterized type: %s", t.Name)
+		}
 		cols := t.Name[3] - '0'
 		rows := t.Name[5] - '0'
 		scalarType, err := l.resolveType(t.TypeParams[0])
@@ -10411,7 +10420,10 @@ func (l *Lowerer) resolveParameterizedType(t *parser.NamedType) (ir.TypeHandle, 
 		if !ok {
 			return 0, fmt.Errorf("scalar type handle %d not found in registry", scalarType)
 		}
-		scalar := typ.Inner.(ir.ScalarType)
+		scalar, ok := typ.Inner.(ir.ScalarType)
+		if !ok {
+			return 0, fmt.Errorf("%s component type must be a scalar", t.Name)
+		}
 		return l.registerType("", ir.MatrixType{
 			Columns: ir.VectorSize(cols),
 			Rows:    ir.VectorSize(rows),
